@@ -18,6 +18,9 @@ use crate::wire;
 pub enum ReadEv {
     Data(Vec<u8>),
     Eof,
+    /// the peer has closed and stays closed: every further read reports the end of the stream
+    /// (token `E`; what a real socket does – a single `e` is followed by whatever comes next)
+    EofSticky,
     Err(io::ErrorKind),
     Pending,
 }
@@ -42,6 +45,7 @@ impl ReadEv {
         match self {
             ReadEv::Data(d) => format!("d{}", wire::hex_raw(d)),
             ReadEv::Eof => "e".into(),
+            ReadEv::EofSticky => "E".into(),
             ReadEv::Err(k) => format!("x{}", wire::kind_tok(*k)),
             ReadEv::Pending => "p".into(),
         }
@@ -49,6 +53,7 @@ impl ReadEv {
     pub fn parse(s: &str) -> Option<Self> {
         Some(match s {
             "e" => ReadEv::Eof,
+            "E" => ReadEv::EofSticky,
             "p" => ReadEv::Pending,
             _ => {
                 if let Some(d) = s.strip_prefix('d') {
@@ -125,6 +130,8 @@ pub struct Script {
     pub log: Vec<Logged>,
     /// the last poll_read found the read queue empty
     pub starved: bool,
+    /// how often the sticky end of the stream has been read
+    pub sticky_reads: usize,
     /// wake the task on scripted `Pending`s (needed when driven by a real runtime)
     pub self_wake: bool,
 }
@@ -184,6 +191,17 @@ impl AsyncRead for ScriptedIo {
             }
             Some(ReadEv::Eof) => {
                 s.delivered.push(ReadEv::Eof);
+                Poll::Ready(Ok(()))
+            }
+            Some(ReadEv::EofSticky) => {
+                // stays at the head of the queue; each read of it is recorded as one `e`
+                s.reads.push_front(ReadEv::EofSticky);
+                s.delivered.push(ReadEv::Eof);
+                s.sticky_reads += 1;
+                if s.sticky_reads > 200_000 {
+                    // reading the end of the stream over and over: a busy loop
+                    crate::run::spinning();
+                }
                 Poll::Ready(Ok(()))
             }
             Some(ReadEv::Err(k)) => {
